@@ -1,7 +1,8 @@
 #!/bin/bash
-# runs every registered quick check with default parameters (regenerates evidence/)
-cd /verif
+# runs every registered check with default parameters (regenerates evidence/)
+# usage: runall.sh [quick|thorough] [tail-lines]     env VERIF_SEED selects the seed
+cd "$(dirname "$0")"
 for id in $(python3 -c "import json;print(' '.join(c['property_id'] for c in json.load(open('MANIFEST.json'))['checks']))"); do
-  ./check $id --tier ${1:-quick} 2>&1 | tail -${2:-3}
+  ./check $id --tier ${1:-quick} 2>&1 | cut -c1-700 | tail -${2:-3}
   echo "== $id exit ${PIPESTATUS[0]}"
 done
